@@ -1,11 +1,29 @@
+//! Runtime monitors for the executor properties C01..C06 (see DESIGN.md 5).
 use vcommon::*;
+
+mod c01;
+mod c02;
+mod c03;
+mod c04;
+mod c05;
+mod c06;
+mod common;
+mod model;
 
 fn main() {
     let args = Args::parse();
     install_quiet_panic_hook();
     let report = Report::new(&args.property);
     match args.property.as_str() {
-        other => report.inconclusive(format!("property {other} not implemented in this monitor")),
+        "C01" => c01::run(&args, &report),
+        "C02" => c02::run(&args, &report),
+        "C03" => c03::run(&args, &report),
+        "C04" => c04::run(&args, &report),
+        "C05" => c05::run(&args, &report),
+        "C06" => c06::run(&args, &report),
+        other => {
+            report.inconclusive(format!("property {other} not implemented in this monitor"));
+            report.finish(&args, "exploration", "", false, &[]);
+        }
     }
-    report.finish(&args, "exploration", "", false, &[]);
 }
